@@ -315,7 +315,11 @@ impl<V: Key + 'static> Drop for MultimapValue<'_, V> {
         // Drop our references to the pages that are about to be freed
         drop(mem::take(&mut self.inner));
         if !self.free_on_drop.is_empty() {
+            #[cfg(redb_verif)]
+            crate::verif::pause("F.mmvalue_drop");
             let mut freed_pages = self.freed_pages.as_ref().unwrap().lock().unwrap();
+            #[cfg(redb_verif)]
+            crate::verif::pause("F.mmvalue_drop.locked");
             for page in &self.free_on_drop {
                 if !self
                     .page_allocator
@@ -825,7 +829,11 @@ impl<'txn, K: Key + 'static, V: Key + 'static> MultimapTable<'txn, K, V> {
                                 // used everywhere else. Two tables of one WriteTransaction share
                                 // these mutexes and may be used from different threads, so the
                                 // reverse order risks an ABBA deadlock with a concurrent insert.
+                                #[cfg(redb_verif)]
+                                crate::verif::pause("F.mmremove");
                                 let mut freed_pages = self.freed_pages.lock().unwrap();
+                                #[cfg(redb_verif)]
+                                crate::verif::pause("F.mmremove.locked");
                                 self.page_allocator.conditional_free(
                                     new_root,
                                     &self.allocated_pages,
